@@ -76,9 +76,7 @@ def search_broken(ctx):
 def replay(payload):
     c = payload.get("input")
     if not isinstance(c, dict) or "contents" not in c:
-        return {"fails": True, "note": "nothing to replay; theorem/correspondence named in the file"}
-    c = dict(c, cum=True)
-    streams, viol, samples = {}, [], []
-    chk = "check_hp_decay Default" if c["cls"] == "InventoryHP" else "check_float_decay Default"
-    D.decay_stream(random.Random(0), [c], chk, "replay", streams, viol, samples, "replay", shard=1)
-    return {"fails": bool(viol), "streams": streams}
+        return None          # not a single decay case: the generic replay of ./check re-runs the recorded seed
+    if True:
+        c = dict(c, cum=True)
+    return D.replay_case(c, payload.get("checker"))
